@@ -15,7 +15,7 @@ The model follows the Python statement by statement:
 * `test`.
 
 Loops: `_propagate`'s `while` gets fuel `pending + total use-list length`, which decreases by one
-per iteration (`Proofs.lean: propagate_pending_nil` shows the fuel always suffices);
+per iteration (`CompleteFinal.lean: propagate_pending_nil` proves that the fuel always suffices);
 `_path_to_root` gets fuel `len(proof_forest)` (enough while the forest is acyclic; Python would
 loop forever otherwise); `explain`'s recursion gets explicit fuel and answers `Err.fuel` when it
 runs out (Python: RecursionError).  Dictionary reads inside `merge`/`_propagate` that cannot miss
